@@ -24,7 +24,7 @@ func init() {
 	core.Register(&core.Monitor{
 		ID:    "C20",
 		Level: "exploration",
-		Rule: "inputs: every filename of length <=3 (thorough <=4) over a 20-symbol alphabet (dot, separators of the host OS, list separator, backslash, NUL, space, letters, Unicode look-alikes of '/' and '.', newline) x constant dirs {'', '.', '/', 'a/b', '..', 'a/../b', '/abs/x/', 'a//b/'} x src {'', 'sub', 'sub/deeper', '../up', '/abs'} ; plus seeded path soups; " +
+		Rule: "inputs: every filename of length <=3 (thorough <=4) over a 20-symbol alphabet (dot, separators of the host OS, list separator, backslash, NUL, space, letters, Unicode look-alikes of '/' and '.', newline) x constant dirs {'', '.', '/', 'a/b', '..', 'a/../b', '/abs/x/', 'a//b/'} x src {'', 'sub', 'sub/deeper', '../up', '/abs'} ; plus seeded path soups; plus families of consecutive calls whose (dir, src) are all the splits of one string (state kept between calls would show); " +
 			"dir is driven through reflect conversion of the constant-only parameter, src through TrustedSourceFromFlag; non-trivial = filename contains a dot, separator or non-letter; distinct by (dir, src, filename)",
 		Assumptions: []string{"oracle: path/filepath Clean/Join/Dir/Base of the host OS applied to the result (decomposition, not re-implementation of the check)"},
 		Run:         run,
@@ -52,6 +52,7 @@ func norm(p string) string {
 func check(c *core.Ctx, dir, src, file string) {
 	c.Eval(1)
 	k := kase{util.Q(dir), util.Q(src), util.Q(file)}
+	c.Note(func() interface{} { return k })
 	var res template.TrustedSource
 	var err error
 	p := core.Recover(func() {
@@ -143,6 +144,17 @@ func run(c *core.Ctx) {
 			check(c, gen.Pad("d", n), "s", ".."+gen.Pad(" ", n%5))
 			check(c, "a/b", "", gen.Pad(" ", n%7)+".."+gen.Pad("\t", n%3))
 		}
+	}
+	// consecutive calls whose dir and src are different splits of one string: the result of a
+	// call may not depend on earlier calls (e.g. through a cache keyed by the concatenation)
+	rs := c.Rng("splits")
+	for i := 0; i < c.N(20000, 200000)/c.NShards; i++ {
+		t := gen.Soup(rs, []string{"a", "b", "/", "..", ".", "sub", "x", "//", "../"}, 1+rs.Intn(5))
+		f := gen.Soup(rs, []string{"f", "x.tmpl", "..", ".", "/", "a"}, 1+rs.Intn(2))
+		for cut := 0; cut <= len(t); cut++ {
+			check(c, t[:cut], t[cut:], f)
+		}
+		c.Count("split_families", 1)
 	}
 	r := c.Rng("soup")
 	atoms := append([]string{"..", "../", "/..", "./", "/.", "//", "...", "etc", "passwd", "x.tmpl", "%2e%2e", "%2f", "..\\", "\\..", "C:", "a:b", ":/x", "\xff", "é"}, alpha...)
